@@ -68,9 +68,62 @@ def generate(R: Draw, tier: str) -> dict:
     lib, rs = schemas.get(sref)
     g = docgen(rs)
     doc = g.doc(R, R.weighted([("small", 5), ("medium", 2)]))
+    focus = _exclusion_focus(R, g, rs, doc) if R.bool(0.35) else None
+    if focus is not None:
+        doc, op = focus
+        return {"schema": sref, "doc": doc, "op": op}
     node = P.build(lib, doc)
     op = go.gen_op(R, g, lib, node, KINDS, steer=0.8)
     return {"schema": sref, "doc": doc, "op": op}
+
+
+def _exclusion_focus(R: Draw, g, rs, doc: dict):  # noqa: ANN001, ANN202
+    """Put marks that interact with a chosen mark M on one inline node (a mark M displaces, a mark that refuses M,
+    or both at once) and add M over a range that covers part of that node."""
+    from ..gen import mutate as mu
+
+    names = rs.mark_names
+    if len(names) < 2:
+        return None
+    m = R.choice(names)
+    displaced = [a for a in names if a != m and rs.excludes(m, a)]
+    refusing = [b for b in names if b != m and rs.excludes(b, m) and not rs.excludes(m, b)]
+    if not displaced and not refusing:
+        return None
+    inline_paths = [p for p in mu.paths(doc) if p and rs.inline[mu.get_at(doc, p)["t"]]]
+    if not inline_paths:
+        return None
+    path = R.choice(inline_paths)
+    parent = mu.get_at(doc, path[:-1])
+    want = []
+    if displaced and R.bool(0.8):
+        want.append(R.choice(displaced))
+    if refusing and R.bool(0.6 if want else 1.0):
+        want.append(R.choice(refusing))
+    cur: list = []
+    for name in want:
+        if rs.allows_mark(parent["t"], name):
+            cur = rm.ref_add(rs, g.mark(R, name), cur)
+    if not cur:
+        return None
+    doc2 = mu.replace_at(doc, path, lambda n: {**n, "m": cur})
+    if V.node_problems(rs, doc2):
+        return None
+    # absolute range of the chosen node
+    from ..ref import resolve as RR
+
+    rdoc = RR.N(doc2, rs)
+    try:
+        target = mu.get_at(doc2, path)  # the path may be gone when the re-marked text merged with a neighbour
+    except IndexError:
+        return None
+    spans = [(s_, k.size) for k, s_, _par, _i, _d in RR.all_nodes(rdoc) if k.p is target]
+    if not spans:
+        return None
+    start, size = spans[0]
+    a = R.int(max(0, start - 2), start + max(0, size - 1))
+    b = R.int(max(a, start + 1), min(rdoc.content_size, start + size + 2))
+    return doc2, {"op": "add_mark", "from": a, "to": b, "mark": g.mark(R, m)}
 
 
 # ------------------------------------------------------------------ expected documents
